@@ -384,6 +384,81 @@ theorem sync_next_run {fuel : Nat} {env : Env} {inp : List Val} {r : Except Stri
   · simp only [hc, hn]
     exact ⟨_, rfl, hwt2, hpriv, Or.inr (Or.inr ⟨v, x, rfl, hx, hx0, by simpa [hevs] using hr⟩)⟩
 
+/-! ## statements in refinement form for the functions used on their own -/
+
+/-- `___cds_wfcq_append` from any pc `p` whose `xchgTail q nt _` step leads to `.enq q _ nh spl`
+(L2: `idle` with `enqXchg`, `s6` of a splice) -/
+theorem append_refines_env (fuel : Nat) (env : Env) (hk tk q nhA ntA : Nat) (nh nt : Val) (inp : List Val) (p : Pc)
+    (spl : Bool) (h1 : env.vars "u_head" = some (.ptr (.obj hk))) (h2 : env.vars "tail" = some (.ptr (.obj tk)))
+    (h3 : env.vars "new_head" = some nh) (h4 : env.vars "new_tail" = some nt)
+    (hq : L.addr hk = some q) (ht : L.tailOf tk = some q) (hnh : dec L nh = some nhA) (hnt : dec L nt = some ntA)
+    (hstep : ∀ old, lstep p (.xchgTail q ntA old) = some (.enq q old nhA spl))
+    (hwt : ∀ v ∈ inp, IsObj L v) :
+    ∃ out, exec fuel Gen.Src.«___cds_wfcq_append» env inp = .ok out ∧
+      ∃ p', lrun p (out.events.filterMap (absEv L)) = some p' ∧
+        ((out.ctl = .blocked ∧ p' = p) ∨
+         (∃ b, out.ctl = .ret (some (boolV b)) ∧ p' = .done (if spl then .dest b else .bool b))) := by
+  rcases append_exec (fuel := fuel) (inp := inp) rfl hk tk nh nt h1 h2 h3 h4 with ⟨rfl, vars, h⟩ | ⟨v, rest, rfl, h⟩
+  · exact ⟨_, h, p, by simp [lrun], Or.inl ⟨rfl, rfl⟩⟩
+  · obtain ⟨k, a, rfl, hk'⟩ := hwt v (by simp)
+    obtain ⟨vars, h⟩ := h _ rfl
+    refine ⟨_, h, ?_⟩
+    have hb : decide (k = hk) = decide (a = q) := by
+      by_cases e : k = hk
+      · subst e; simp_all
+      · have : a ≠ q := fun e' => e (L.addr_inj _ _ _ hk' (e' ▸ hq))
+        simp [e, this]
+    have hdk : dec L (.ptr (.obj k)) = some a := by simp [dec, hk']
+    refine ⟨_, ?_, Or.inr ⟨decide (a ≠ q), ?_, rfl⟩⟩
+    · have hev : List.filterMap (absEv L) [Event.xchg ((Loc.obj tk).field "p") nt (Val.ptr (Loc.obj k)) 5,
+          Event.st ((Loc.obj k).field "next") nh 3] = [.xchgTail q ntA a, .stNext a nhA] := by
+        simp [absEv, decNext, decTail, ht, hk', hnh, hnt, hdk, List.filterMap_cons]
+      simp only [hev, lrun, hstep]
+      cases spl <;> simp [lstep]
+    · simp [boolV, hb]
+
+theorem empty_refines_env (fuel : Nat) (env : Env) (hk tk q : Nat) (k : K) (inp : List Val)
+    (h1 : env.vars "u_head" = some (.ptr (.obj hk))) (h2 : env.vars "tail" = some (.ptr (.obj tk)))
+    (hq : L.addr hk = some q) (ht : L.tailOf tk = some q) (hwt : ∀ v ∈ inp, Typed L v) :
+    ∃ out, exec fuel Gen.Src.«_cds_wfcq_empty» env inp = .ok out ∧
+      ∃ p', lrun (.e1 k q) (out.events.filterMap (absEv L)) = some p' ∧
+        ((out.ctl = .blocked ∧ (p' = .e1 k q ∨ p' = .e2 k q)) ∨
+         (out.ctl = .ret (some (.int 1)) ∧ p' = .done (emptyRes k)) ∨
+         (out.ctl = .ret (some (.int 0)) ∧ p' = nonEmptyPc k q)) := by
+  obtain ⟨vars, h⟩ := empty_exec (fuel := fuel) (inp := inp) rfl hk tk h1 h2
+  obtain ⟨p', hrun, hp'⟩ := empty_lrun L hk tk q k inp hq ht hwt
+  refine ⟨_, h, p', hrun, ?_⟩
+  simp only
+  generalize (emptySpec hk tk inp).2.2 = c at hp'
+  cases c <;> simp at hp' ⊢
+  · rename_i v; cases v <;> simp at hp' ⊢
+    rcases hp' with ⟨rfl, h⟩ | ⟨rfl, h⟩ <;> simp [h]
+  · exact hp'
+
+theorem sync_next_refines_env (fuel : Nat) (env : Env) (nk a q : Nat) (k : K) (b : Int) (inp : List Val)
+    (h1 : env.vars "node" = some (.ptr (.obj nk))) (h2 : env.vars "blocking" = some (.int b))
+    (ha : L.addr nk = some a) (hk : k.blocking = decide (b ≠ 0)) (hwt : ∀ v ∈ inp, Typed L v) :
+    ∃ out, exec fuel Gen.Src.«___cds_wfcq_node_sync_next» env inp = .ok out ∧
+      ∃ p', lrun (.sync k q a) (out.events.filterMap (absEv L)) = some p' ∧
+        (((out.ctl = .blocked ∨ out.ctl = .fuel) ∧ p' = .sync k q a) ∨
+         (out.ctl = .ret (some (.int (-1))) ∧ b = 0 ∧ p' = syncWbPc k q a) ∨
+         (∃ v x, out.ctl = .ret (some v) ∧ dec L v = some x ∧ x ≠ 0 ∧ p' = syncGotPc k q a x)) := by
+  obtain ⟨out, h, -, -, hres⟩ := sync_next_run L (fuel := fuel) (inp := inp) rfl nk b h1 h2 hwt
+  refine ⟨out, h, ?_⟩
+  rcases hres with ⟨hc, hr⟩ | ⟨hc, hb, hr⟩ | ⟨v, x, hc, hx, hx0, hr⟩
+  · exact ⟨_, hr k q a ha hk, Or.inl ⟨hc, rfl⟩⟩
+  · exact ⟨_, hr k q a ha hk, Or.inr (Or.inl ⟨hc, hb, rfl⟩)⟩
+  · exact ⟨_, hr k q a ha hk, Or.inr (Or.inr ⟨v, x, hc, hx, hx0, rfl⟩)⟩
+
+/-- `_cds_wfcq_node_init_atomic(&head->node)` inside a dequeue: L2's `d3` (store `head.next := NULL`) -/
+theorem node_init_atomic_refines_env (fuel : Nat) (env : Env) (hk q nd : Nat) (b : Bool) (inp : List Val)
+    (h1 : env.vars "node" = some (.ptr (.obj hk))) (hq : L.addr hk = some q) :
+    ∃ out, exec fuel Gen.Src.«_cds_wfcq_node_init_atomic» env inp = .ok out ∧
+      out.events = [.st (.field (.obj hk) "next") (.int 0) 0] ∧ out.ctl = .normal ∧ out.inp = inp ∧
+      lrun (.d3 q nd b) (out.events.filterMap (absEv L)) = some (.d4 q nd b) := by
+  simp [Gen.Src.«_cds_wfcq_node_init_atomic», exec, eval, evalArgs, execPrim, asLoc, bind, Except.bind, h1,
+    absEv, decNext, dec, hq, List.filterMap_cons, lrun, lstep]
+
 end WfcqR
 
 /-! # rculfqueue: `_cds_lfq_enqueue_rcu` ⊑ thread-local projection of `Lfq/Model.lean`
